@@ -4,7 +4,9 @@
   polynomial (`genTable`).  Props/C14.lean combines these with `Gen.C14.crc32Table = genTable P32 8`.
   Route: step1 is xor-linear; `n` bit steps of a word whose low `n` bits are zero are a right shift;
   table[s][b] = 8(s+1) bit steps of b; k ≤ w/8 message bytes = xor the LE word in, then 8k bit steps;
-  a 32-bit word splits into its four bytes.  Core Lean only, kernel proofs only.
+  a 32-bit word splits into its four bytes.  At the end: error detection (the shift-register step is injective because
+  the top bit of the reflected polynomial is set, hence any change confined to one byte, in particular one flipped bit,
+  changes the CRC; used by C05).  Core Lean only, kernel proofs only.
 -/
 import XzVerif.Model.Crc
 namespace XzVerif.Crc
@@ -284,4 +286,132 @@ theorem crc64Generic_genTable (align : Nat) (bs : List UInt8) (init : BitVec 64)
   split
   · rw [slice4Loop_eq, ← refRaw_append, List.take_append_drop]
   · rfl
+
+/-! ### error detection: a change confined to one byte always changes the CRC -/
+
+theorem step1_eq_zero {w : Nat} (P : BitVec w) (hP : P.msb = true) (z : BitVec w) (h : step1 P z = 0#w) : z = 0#w := by
+  unfold step1 at h
+  have hw : 0 < w := by
+    cases w with
+    | zero => simp [BitVec.msb] at hP
+    | succ n => omega
+  by_cases h0 : z.getLsbD 0 = true
+  · rw [if_pos h0] at h
+    have : (z >>> 1 ^^^ P).msb = true := by
+      rw [BitVec.msb_xor, hP]
+      have : (z >>> 1).msb = false := by
+        rw [BitVec.msb_eq_getLsbD_last, BitVec.getLsbD_ushiftRight]
+        apply BitVec.getLsbD_of_ge; omega
+      simp [this]
+    rw [h] at this
+    simp at this
+  · have h0' : z.getLsbD 0 = false := by simpa using h0
+    rw [if_neg h0] at h
+    apply BitVec.eq_of_getLsbD_eq
+    intro i hi
+    cases i with
+    | zero => simpa using h0'
+    | succ i =>
+      have := congrArg (fun v => v.getLsbD i) h
+      simp only [BitVec.getLsbD_ushiftRight, BitVec.getLsbD_zero] at this
+      rw [Nat.add_comm] at this
+      simpa using this
+
+theorem stepN_eq_zero {w : Nat} (P : BitVec w) (hP : P.msb = true) (n : Nat) (z : BitVec w) (h : stepN P n z = 0#w) : z = 0#w := by
+  induction n generalizing z with
+  | zero => exact h
+  | succ n ih => exact step1_eq_zero P hP z (ih _ h)
+
+theorem stepN_injective {w : Nat} (P : BitVec w) (hP : P.msb = true) (n : Nat) (x y : BitVec w)
+    (h : stepN P n x = stepN P n y) : x = y := by
+  have : stepN P n (x ^^^ y) = 0#w := by rw [stepN_xor, h, BitVec.xor_self]
+  have := stepN_eq_zero P hP n _ this
+  exact BitVec.xor_eq_zero_iff.mp this
+
+theorem refRaw_injective {w : Nat} (P : BitVec w) (hP : P.msb = true) (t : List UInt8) (c c' : BitVec w)
+    (h : refRaw P t c = refRaw P t c') : c = c' := by
+  induction t generalizing c c' with
+  | nil => exact h
+  | cons b t ih =>
+    rw [refRaw_cons, refRaw_cons] at h
+    have := stepN_injective P hP 8 _ _ (ih _ _ h)
+    have h2 := congrArg (· ^^^ BitVec.ofNat w b.toNat) this
+    simpa [BitVec.xor_assoc] using h2
+
+theorem ofNat_byte_ne {w : Nat} (hw : 8 ≤ w) (b b' : UInt8) (h : b ≠ b') : BitVec.ofNat w b.toNat ≠ BitVec.ofNat w b'.toNat := by
+  intro e
+  apply h
+  have := congrArg BitVec.toNat e
+  simp only [BitVec.toNat_ofNat] at this
+  have h1 : b.toNat < 2 ^ w := Nat.lt_of_lt_of_le b.toNat_lt (Nat.pow_le_pow_right (by decide) hw)
+  have h2 : b'.toNat < 2 ^ w := Nat.lt_of_lt_of_le b'.toNat_lt (Nat.pow_le_pow_right (by decide) hw)
+  rw [Nat.mod_eq_of_lt h1, Nat.mod_eq_of_lt h2] at this
+  exact UInt8.toNat_inj.mp this
+
+/-- Changing exactly one byte of a message (any nonzero change, in particular one flipped bit) changes the raw CRC. -/
+theorem refRaw_byte_change {w : Nat} (P : BitVec w) (hP : P.msb = true) (hw : 8 ≤ w) (a t : List UInt8) (b b' : UInt8)
+    (hb : b ≠ b') (c : BitVec w) : refRaw P (a ++ b :: t) c ≠ refRaw P (a ++ b' :: t) c := by
+  intro h
+  rw [refRaw_append, refRaw_append, refRaw_cons, refRaw_cons] at h
+  have h1 := refRaw_injective P hP t _ _ h
+  have h2 := stepN_injective P hP 8 _ _ h1
+  have h3 := congrArg (refRaw P a c ^^^ ·) h2
+  simp only [← BitVec.xor_assoc, BitVec.xor_self, BitVec.zero_xor] at h3
+  exact ofNat_byte_ne hw b b' hb h3
+
+/-- Flip bit `i` (bit `i % 8` of byte `i / 8`) of a message. -/
+def flipBit (m : List UInt8) (i : Nat) : List UInt8 :=
+  m.take (i / 8) ++ (m.drop (i / 8)).head?.toList.map (· ^^^ (1 <<< (i % 8).toUInt8)) ++ m.drop (i / 8 + 1)
+
+theorem flipBit_split (m : List UInt8) (i : Nat) (h : i / 8 < m.length) :
+    ∃ a b t, m = a ++ b :: t ∧ flipBit m i = a ++ (b ^^^ (1 <<< (i % 8).toUInt8)) :: t := by
+  refine ⟨m.take (i / 8), m[i / 8], m.drop (i / 8 + 1), ?_, ?_⟩
+  · rw [List.getElem_cons_drop, List.take_append_drop]
+  · unfold flipBit
+    rw [← List.getElem_cons_drop (h := h)]
+    simp [List.getElem?_eq_getElem h]
+
+theorem mask_ne (b : UInt8) (j : Nat) : b ≠ b ^^^ (1 <<< (j % 8).toUInt8) := by
+  have hj : j % 8 < 8 := Nat.mod_lt _ (by decide)
+  have hm : (1 : UInt8) <<< (j % 8).toUInt8 ≠ 0 := by
+    have : j % 8 = 0 ∨ j % 8 = 1 ∨ j % 8 = 2 ∨ j % 8 = 3 ∨ j % 8 = 4 ∨ j % 8 = 5 ∨ j % 8 = 6 ∨ j % 8 = 7 := by omega
+    rcases this with h|h|h|h|h|h|h|h <;> rw [h] <;> decide
+  intro h
+  apply hm
+  have := congrArg (b ^^^ ·) h
+  simp only [UInt8.xor_self, ← UInt8.xor_assoc, UInt8.zero_xor] at this
+  exact this.symm
+
+
+/-- Any change confined to one byte of the message changes the CRC-32 (whatever the other bytes and the initial value). -/
+theorem crc32_byte_error (a t : List UInt8) (b b' : UInt8) (h : b ≠ b') (init : BitVec 32) :
+    crc32Ref (a ++ b :: t) init ≠ crc32Ref (a ++ b' :: t) init := by
+  intro e
+  exact refRaw_byte_change P32 (by decide) (by decide) a t b b' h _ (BitVec.not_inj.mp e)
+
+theorem crc64_byte_error (a t : List UInt8) (b b' : UInt8) (h : b ≠ b') (init : BitVec 64) :
+    crc64Ref (a ++ b :: t) init ≠ crc64Ref (a ++ b' :: t) init := by
+  intro e
+  exact refRaw_byte_change P64 (by decide) (by decide) a t b b' h _ (BitVec.not_inj.mp e)
+
+/-- A single flipped bit anywhere in the message changes the CRC-32. -/
+theorem crc32_flip_ne (m : List UInt8) (i : Nat) (hi : i < 8 * m.length) (init : BitVec 32) :
+    crc32Ref (flipBit m i) init ≠ crc32Ref m init := by
+  obtain ⟨a, b, t, hm, hf⟩ := flipBit_split m i (by omega)
+  rw [hf]
+  conv => rhs; rw [hm]
+  exact (crc32_byte_error a t b _ (mask_ne b i) init).symm
+
+theorem crc64_flip_ne (m : List UInt8) (i : Nat) (hi : i < 8 * m.length) (init : BitVec 64) :
+    crc64Ref (flipBit m i) init ≠ crc64Ref m init := by
+  obtain ⟨a, b, t, hm, hf⟩ := flipBit_split m i (by omega)
+  rw [hf]
+  conv => rhs; rw [hm]
+  exact (crc64_byte_error a t b _ (mask_ne b i) init).symm
+
+/-- `crc32_tablegen.c` / `crc64_tablegen.c` build slice `s+1` from slice `s` by eight more shift steps. -/
+theorem tabS_succ {w : Nat} (P : BitVec w) (s b : Nat) : tabS P (s + 1) b = step8 P (tabS P s b) := by
+  rw [tabS_eq, tabS_eq, step8, ← stepN_add]
+  congr 1
+
 end XzVerif.Crc
